@@ -270,6 +270,82 @@ theorem loop_vars_local (cfg : Cfg) (fn : Bool) (s : Nat) (kind : Kind) (x : Nam
     lookup st'.heap t y = lookup st.heap t y :=
   (loopFresh_binds_fresh cfg fn s kind x vals fuel st r st' hrun).2.2.lookup wf ht y
 
+/-- **frame theorem for arbitrary loop bodies** (`@for`, and `@each` / function loops since
+90cea8e; any flags, any fuel).  Let `R h0 ·` be any relation "the heap evolved acceptably
+from `h0`" that is kept by allocating a scope and by writing loop variables into scopes
+newer than `h0`.  If the *body*, run in any scope newer than `h0`, keeps `R h0`, then so does
+the whole loop: the loop construct itself — binding the loop variable for every value,
+iterating, stopping at `@return` — never touches a scope that existed before it.  Whatever
+happened to the enclosing scopes was done by a statement of the body. -/
+theorem loop_frame (R : Heap → Heap → Prop) (h0 : Heap)
+    (hsize : ∀ h, R h0 h → h0.size ≤ h.size)
+    (halloc : ∀ h p k fl, R h0 h → R h0 (alloc h p k fl).1)
+    (hins : ∀ h t x v, R h0 h → h0.size ≤ t → R h0 (insertAt h t x v))
+    (hmark : ∀ h t x, R h0 h → h0.size ≤ t → R h0 (markLoopVar h t x))
+    (cfg : Cfg) (fn : Bool) (s : Nat) (kind : Kind) (x : Name) (body : List Stmt)
+    (hbody : ∀ fuel f st r st', h0.size ≤ f → R h0 st.heap →
+      exec fuel cfg fn f body st = .ok (r, st') → R h0 st'.heap) :
+    ∀ (vals : List V) (fuel : Nat) (st : St) (r : Option V) (st' : St),
+      R h0 st.heap → loopFresh fuel cfg fn s kind x vals body st = .ok (r, st') → R h0 st'.heap := by
+  intro vals
+  induction vals with
+  | nil =>
+    intro fuel st r st' hR h
+    cases fuel with
+    | zero => simp [loopFresh] at h
+    | succ f => simp [loopFresh] at h; obtain ⟨_, rfl⟩ := h; exact hR
+  | cons v vs ih =>
+    intro fuel st r st' hR h
+    cases fuel with
+    | zero => simp [loopFresh] at h
+    | succ f =>
+      rw [loopFresh] at h
+      have hal1 : R h0 (alloc st.heap s kind true).1 := halloc _ _ _ _ hR
+      have hfresh0 : h0.size ≤ (alloc st.heap s kind true).2 := by simpa [alloc] using hsize _ hR
+      generalize alloc st.heap s kind true = al at h hal1 hfresh0
+      obtain ⟨ah, af⟩ := al
+      simp only at h hal1 hfresh0
+      have hR1 : R h0 (insertLocal (markLoopVar ah af x) af x v) :=
+        hins _ _ _ _ (hmark _ _ _ hal1 hfresh0) hfresh0
+      cases hb : exec f cfg fn af body { heap := insertLocal (markLoopVar ah af x) af x v, out := st.out } with
+      | error e => rw [hb] at h; simp at h
+      | ok res =>
+        obtain ⟨o, st1⟩ := res
+        have hR2 : R h0 st1.heap := hbody f _ _ o st1 hfresh0 hR1 hb
+        rw [hb] at h
+        cases o with
+        | some w => simp at h; obtain ⟨_, rfl⟩ := h; exact hR2
+        | none => exact ih f st1 r st' hR2 h
+
+/-- **loop variables are local, arbitrary body.**  Instance `R := Heap.Upd` ("old scopes keep
+their parents and declare exactly the names they declared; only values of already declared
+variables may have changed"): if the body only assigns to variables that the enclosing
+scopes already declare (and otherwise works in newer scopes), then after the loop every
+enclosing scope declares exactly what it declared before — in particular the loop variable
+`$x` was not declared in, and did not overwrite a declaration of, any enclosing scope by the
+loop construct. -/
+theorem loop_vars_local_any_body (h0 : Heap) (cfg : Cfg) (fn : Bool) (s : Nat) (kind : Kind) (x : Name)
+    (body : List Stmt)
+    (hbody : ∀ fuel f st r st', h0.size ≤ f → h0.Upd st.heap →
+      exec fuel cfg fn f body st = .ok (r, st') → h0.Upd st'.heap)
+    (vals : List V) (fuel : Nat) (st : St) (r : Option V) (st' : St)
+    (hst : h0.Upd st.heap) (hrun : loopFresh fuel cfg fn s kind x vals body st = .ok (r, st')) :
+    ∀ i, i < h0.size → ∀ y, declares st'.heap y i = declares h0 y i := by
+  have := loop_frame Heap.Upd h0 (fun h hR => hR.1)
+    (fun h p k fl hR => hR.trans_ext (ext_alloc h p k fl))
+    (fun h t x v hR ht => upd_insertAt_newer hR ht x v)
+    (fun h t x hR ht => upd_markLoopVar_newer hR ht x)
+    cfg fn s kind x body hbody vals fuel st r st' hst hrun
+  intro i hi y
+  exact (this.2 i hi).2 y
+
+/-- the body hypothesis of `loop_vars_local_any_body` is met by an assignment to a variable an
+enclosing scope declares: it is an `Upd` step (`upd_insertAt_declared`), e.g. `$a: 5` reaching
+the root's `$a` -/
+example : Heap.Upd #[{ parent := none, vars := [(['a'], V.num 0)] }]
+    (insertAt #[{ parent := none, vars := [(['a'], V.num 0)] }] 0 ['a'] (V.num 5)) :=
+  upd_insertAt_declared #[{ parent := none, vars := [(['a'], V.num 0)] }] 0 ['a'] (V.num 5) (by decide)
+
 /-- **loop_vars_local, `@each` as the code has it** (transform.rs: define in the enclosing
 scope, `store_local_values` before, `restore_local_values` after): after the loop the
 enclosing scope's own variables are what they were. -/
@@ -417,9 +493,14 @@ theorem refute_each_var_visible_outside :
     ∧ (runProgram asisCfg 60 p).toOption = some [(nm "p1", "1".toList), (nm "p1", "2".toList)] := by
   decide +kernel
 
-/-! Not proved (kept visible): a frame theorem for arbitrary loop bodies / default
-expressions — "a body that never assigns `$x` leaves every lookup of `$x` from an older
-scope unchanged" — needs an induction over the whole mutual evaluator; the statements
-above cover the binding step itself (empty body / already evaluated arguments). -/
+/-! Proved above: `loop_frame` / `loop_vars_local_any_body` — the loop construct adds nothing to
+what its body does, for arbitrary bodies, relative to a frame hypothesis on the body.
+Still not proved (kept visible): discharging that body hypothesis *syntactically* —
+"for every body whose assignments are non-`!global` assignments to names declared in an
+enclosing scope and whose expressions call no function with `!global` writes,
+`exec … body` keeps `Heap.Upd h0`" — which needs one induction over the whole mutual
+evaluator (11 functions on `fuel`): `setVariable`'s cases are covered by
+`upd_insertAt_declared` / `ext_insertAt_fresh`, the missing part is the purely structural
+mutual induction threading `Upd` through `evalExpr`/`callClosure`/`exec`. -/
 
 end C16
